@@ -101,6 +101,148 @@ def size(rng, big):
     return rng.choice([rng.randint(10, 40), rng.randint(10, 40), rng.randint(40, 400)])
 
 
+
+# ----------------------------------------------------------------------------- generic strata (GENERIC_STRATA.md)
+BOUNDARY_N = [10, 15, 16, 17, 23, 24, 25, 31, 32, 33, 63, 64, 65, 127, 128, 129, 255, 256, 257, 511, 512, 513]
+BOUNDARY_N_BIG = [1023, 1024, 1025, 2047, 2048, 2049, 2050, 4095, 4096, 4097, 5000]
+SPECIALS = [0.0, -0.0, 1.0, -1.0, 0.5, 1.5, 2.0, 3.0, 1.0 / 3.0, 2.0 / 3.0, 0.1, 4.0, 1024.0, 1.0 + 2.0 ** -52, 1.0 - 2.0 ** -53]
+
+
+def special_series(rng, n):
+    """series drawn from exact special values (integers, half-integers, thirds, powers of two and neighbours)"""
+    kind = rng.randint(0, 3)
+    if kind == 0:
+        return [float(rng.randint(-9, 9)) for _ in range(n)]
+    if kind == 1:
+        return [rng.randint(-9, 9) / 2.0 for _ in range(n)]
+    if kind == 2:
+        return [rng.choice(SPECIALS) * rng.choice([1.0, -1.0, 2.0, 0.5]) for _ in range(n)]
+    return [2.0 ** rng.randint(-6, 6) * rng.choice([1.0, -1.0]) for _ in range(n)]
+
+
+def seasonal_series(rng, n):
+    """clean seasonal data with exact zeros about an exactly representable mean: forecasts cross the mean exactly"""
+    per = rng.choice([4, 4, 8])
+    a = float(rng.randint(1, 9)) * rng.choice([1.0, 0.5, 2.0])
+    c = float(rng.choice([0, 0, 3, -7, 100, 4096]))
+    if per == 4:
+        pat = [a, 0.0, -a, 0.0]
+    else:
+        b = float(rng.randint(1, 5))
+        pat = [a, b, 0.0, -b, -a, -b, 0.0, b]
+    n = max(per * 3, n - n % per)        # whole periods: the mean is exactly c
+    ph = rng.randint(0, per - 1)
+    return [c + pat[(i + ph) % per] for i in range(n)]
+
+
+def bigoffset_series(rng, n):
+    """unit spread about a mean of 1e5 / 1e6 (sd / |mean| <= 1e-5)"""
+    off = rng.choice([1e5, 1e6, -1e5, -1e6, 131072.0, 1048576.0])
+    base = series(rng, n, "ar")
+    sd = (sum(v * v for v in base) / n) ** 0.5 or 1.0
+    return [off + v / sd for v in base]
+
+
+def gen_strata(rng, tier, add):
+    q = tier == "quick"
+    m = 1 if q else 12
+    # 1. order exactly 8 (and 7, 9, 16, 24 for explicit states): `dot` over whole blocks of 8
+    for _ in range(30 * m):
+        reg = rng.choice(REGIMES)
+        add("ar_fp %s:p8:h 8 %d %s" % (reg, rng.choice([1, 3, 20]), vec(series(rng, rng.choice([16, 24, 40, 64, 100, rng.randint(20, 300)]), reg))), "strata:p8")
+    for _ in range(40 * m):
+        p = rng.choice([8, 8, 8, 16, 16, 24, 7, 9, 15, 17, 32])
+        co = [rng.uniform(-1, 1) / (1 + p / 8.0) for _ in range(p)]
+        ic = rng.choice([0.0, 1.0, rng.normal(), 1e3, 1e6])
+        hist = [ic + rng.normal() for _ in range(rng.choice([p, p, p + 1, p + 8, 2 * p, rng.randint(p, p + 30)]))]
+        if rng.chance(0.5):
+            add("ar_pred1 state:p%d %s %s %s" % (p, f2h(ic), vec(co), vec(hist)), "strata:blocks")
+        else:
+            add("ar_pred state:p%d %s %s %d %s" % (p, f2h(ic), vec(co), rng.choice([1, 2, 9, 30]), vec(hist)), "strata:blocks")
+    # histories shorter than the order whose length is a multiple of 8 (F42 branch over whole blocks)
+    for _ in range(10 * m):
+        p = rng.choice([9, 12, 16, 17, 24, 25])
+        n = rng.choice([v for v in (8, 16, 24) if v < p])
+        co = [rng.uniform(-1, 1) / 3 for _ in range(p)]
+        ic = rng.choice([0.0, 2.5, 100.0])
+        add("ar_pred1 short:p%d:n%d %s %s %s" % (p, n, f2h(ic), vec(co), vec([ic + rng.normal() for _ in range(n)])), "strata:blocks")
+    # 2. tiny spread about a huge mean
+    for _ in range(30 * m):
+        p = rng.randint(1, 8)
+        ts = bigoffset_series(rng, rng.choice([20, 50, 64, 200, rng.randint(10, 400)]))
+        r = rng.randint(0, 2)
+        if r == 0:
+            add("ar_fp bigoff:p%d:h %d %d %s" % (p, p, rng.choice([1, 5, 30]), vec(ts)), "strata:bigoff")
+        elif r == 1:
+            add("ar_fit bigoff:p%d %d %s" % (p, p, vec(ts)), "strata:bigoff")
+        else:
+            add("acs bigoff:small %d %s" % (min(50, len(ts)), vec(ts)), "strata:bigoff")
+    # 3. lags exactly +-(n-1), +-(n-2), +-n on short series
+    for _ in range(40 * m):
+        n = rng.choice([2, 3, 4, 5, 8, 9, 16, 17, rng.randint(2, 40)])
+        ts = series(rng, n, rng.choice(REGIMES)) if rng.chance(0.6) else special_series(rng, n)
+        k = rng.choice([n - 1, -(n - 1), n - 1, -(n - 1), n - 2, -(n - 2), n, -n])
+        add("%s edge:n%d %d %s" % (rng.choice(["acovf", "acf"]), min(n, 20), k, vec(ts)), "strata:edge-lag")
+    for _ in range(10 * m):
+        n = rng.randint(3, 30)
+        add("acs edge:small %d %s" % (n, vec(series(rng, n, rng.choice(REGIMES)))), "strata:edge-lag")
+    # 4. length boundaries (2^k, 2^k +- 1, multiples of 8 ...), n = 2048 / 2049 in particular
+    for n in BOUNDARY_N * m:
+        reg = rng.choice(REGIMES)
+        add("acs bnd:small %d %s" % (rng.choice([3, 8, 50]), vec(series(rng, n, reg))), "strata:sizes")
+        if n > 8 and rng.chance(0.5):
+            pp = 8 if rng.chance(0.4) else rng.randint(1, 8)
+            add("ar_fp bnd:p%d:h %d 4 %s" % (pp, pp, vec(series(rng, n, reg))), "strata:sizes")
+    for n in (BOUNDARY_N_BIG if q else BOUNDARY_N_BIG * 4):
+        reg = rng.choice(["ar", "offset", "trend"])
+        add("acs bnd:big %d %s" % (rng.choice([2, 5, 50]), vec(series(rng, n, reg))), "strata:sizes")
+        if rng.chance(0.35):
+            add("ar_fp bnd:p%d:h %d 3 %s" % (4, 4, vec(series(rng, n, reg))), "strata:sizes")
+    for n in [1, 2, 3, 7, 8, 9, 15, 16, 17, 31, 32, 33, 64, 65, 1024, 1025] * m:
+        add("diff bnd %s" % vec(special_series(rng, n) if rng.chance(0.5) else [rng.normal() for _ in range(n)]), "strata:sizes")
+    # 5. forecasts crossing the mean exactly: clean seasonal data, fitted and explicit-state
+    for _ in range(30 * m):
+        ts = seasonal_series(rng, rng.choice([16, 24, 40, 64, 120]))
+        p = rng.choice([2, 2, 3, 4, 4, 6, 8])
+        add("ar_fp seasonal:p%d:h %d %d %s" % (p, p, rng.choice([6, 12, 40]), vec(ts)), "strata:seasonal")
+    for _ in range(20 * m):
+        p = rng.choice([2, 2, 3, 4])
+        co = [rng.choice([-0.9, -0.5, 0.75, -1.0]) if j == 0 else 0.0 for j in range(p)]   # only phi_p non-zero
+        ic = float(rng.choice([0, 0, 5, -3, 1000]))
+        a = float(rng.randint(1, 6))
+        hist = [ic + v for v in ([a, 0.0, -a, 0.0] * 4)[:8 + rng.randint(0, 3)]]
+        add("ar_pred seasonal-state:p%d %s %s %d %s" % (p, f2h(ic), vec(co), rng.choice([4, 9, 16]), vec(hist)), "strata:seasonal")
+    # exact special values as data
+    for _ in range(30 * m):
+        n = rng.choice([10, 12, 16, 17, 33, rng.randint(10, 80)])
+        ts = special_series(rng, n)
+        r = rng.randint(0, 2)
+        if r == 0:
+            add("acs special:small %d %s" % (rng.choice([3, n - 1, n + 1]), vec(ts)), "strata:special")
+        elif r == 1:
+            add("ar_fp special:p%d:h %d 5 %s" % (2, rng.randint(1, 4), vec(ts)), "strata:special")
+        else:
+            add("ar_fit special:p%d %d %s" % (3, rng.randint(1, 8), vec(ts)), "strata:special")
+    # extreme scale: the series times 2^k gives bit-identical autocorrelations / coefficients and exactly scaled
+    # autocovariances, intercept and forecasts
+    for j in range(24 * m):
+        k = rng.choice([-400, -200, -60, 60, 200, 400])
+        ts = series(rng, rng.choice([12, 16, 30, 64, rng.randint(10, 120)]), rng.choice(["ar", "ar", "offset", "grid"]))
+        sc = [v * 2.0 ** k for v in ts]
+        if rng.chance(0.5):
+            add("acs scaleA:%d:small 5 %s" % (j, vec(ts)), "strata:scale")
+            add("acs scaleB:%d:%d:small 5 %s" % (j, k, vec(sc)), "strata:scale")
+        else:
+            p = rng.randint(1, 8)
+            add("ar_fp scaleA:%d:p%d %d 6 %s" % (j, p, p, vec(ts)), "strata:scale")
+            add("ar_fp scaleB:%d:%d:p%d %d 6 %s" % (j, k, p, p, vec(sc)), "strata:scale")
+    # object reuse: long series then short series on one object, order 8
+    for _ in range(10 * m):
+        p = rng.choice([8, 8, 3, 5])
+        a, b = series(rng, rng.randint(200, 400), "ar"), series(rng, rng.randint(p + 2, 24), rng.choice(REGIMES))
+        add("ar_refit refit:p%d:k2 %d 4 2 %s %s" % (p, p, vec(a), vec(b)), "strata:refit")
+
+
 def gen(rng, tier):
     cover = {}
     lines = []
@@ -192,6 +334,7 @@ def gen(rng, tier):
         add("ar_refit refit:p%d:k%d %d %d %d %s" % (p, k, p, h, k, " ".join(vec(x) for x in ss)), "refit")
     for _ in range(n_toe):
         add("toeplitz n %s" % vec([rng.normal() for _ in range(rng.randint(0, 9))]), "toeplitz")
+    gen_strata(rng, tier, add)
     rng.shuffle(lines)
     return lines, cover
 
@@ -518,6 +661,7 @@ def oracle(lines, impl):
     import os
     fails = []
     pairs = {}
+    scales = {}
     for i, (l, rep) in enumerate(zip(lines, impl)):
         t = l.split()
         op, tag = t[0], t[1]
@@ -546,6 +690,8 @@ def oracle(lines, impl):
             a = [h2f(s) for s in toks[1:1 + m]]
             b = [h2f(s) for s in toks[2 + m:2 + 2 * m]]
             check_acs(ts, list(range(-kmax, kmax + 1)), a, b, key, i, fails)
+            if tag.startswith("scale"):
+                scales.setdefault("acs" + tag.split(":")[1], {})[tag[5]] = (i, tag, a + [None] + b)
         elif op == "diff":
             v = take_vec(t, 2)[0]
             if len(v) == 0:
@@ -587,6 +733,8 @@ def oracle(lines, impl):
                 check_fit(data, p, ic, co, key, i, fails)
                 continue
             ic, co, p1, pr = parse_fp(toks)
+            if tag.startswith("scale"):
+                scales.setdefault("fp" + tag.split(":")[1], {})[tag[5]] = (i, tag, [ic] + pr + [None] + co)
             F = check_fit(data, p, ic, co, key, i, fails)
             if len(pr) != h:
                 fails.append(Failure(i, "ar_predict:len", "predict(data, %d) returned %d forecasts" % (h, len(pr))))
@@ -682,6 +830,31 @@ def oracle(lines, impl):
                 fails.append(Failure(i, "ar_predict:len", "predict(data, %d) returned %d forecasts" % (h, len(pr))))
                 continue
             check_forecasts(ic, co, hist, pr, key, i, fails, "ar_predict_one" if op == "ar_pred1" else "ar_predict")
+    # exact scale equivariance: series * 2^k -> autocovariances * 2^2k / intercept and forecasts * 2^k (bit-exact),
+    # autocorrelations and coefficients bit-identical
+    for sid, ab in scales.items():
+        if "A" not in ab or "B" not in ab:
+            continue
+        (ia, taga, va), (ib, tagb, vb) = ab["A"], ab["B"]
+        k = int(tagb.split(":")[2])
+        f = 2.0 ** (2 * k if sid.startswith("acs") else k)
+        if len(va) != len(vb):
+            continue
+        scaled = True
+        for x, y in zip(va, vb):
+            if x is None:
+                scaled = False
+                continue
+            if x != x or y != y:
+                continue
+            want = x * f if scaled else x
+            if abs(want) == float("inf") or (want != 0 and abs(want) < 1e-290):
+                continue
+            if f2h(want) != f2h(y) and not (want == 0 and y == 0):
+                what = ("autocovariance" if sid.startswith("acs") else "intercept/forecast") if scaled else ("autocorrelation" if sid.startswith("acs") else "coefficient")
+                fails.append(Failure(ib, "scale:%s" % ("acs" if sid.startswith("acs") else "ar"),
+                                     "series * 2^%d: %s %r became %r, expected %r (exact power-of-two scaling)" % (k, what, x, y, want), want))
+                break
     # shift equivariance by paired runs
     for pid, ab in pairs.items():
         if "A" not in ab or "B" not in ab:
